@@ -166,7 +166,8 @@ class Signal(np.lib.mixins.NDArrayOperatorsMixin):
         kw = dict()
         if s.step > 1:
             kw["sample_rate"] = self.sample_rate / s.step
-        if self.start_time is not None:
+        if self.start_time is not None and s.start:
+            # (no arithmetic for a zero offset: Time + 0 s is not always exact)
             kw["start_time"] = self.start_time + s.start / self.sample_rate
         return kw
 
